@@ -222,9 +222,71 @@ def ssn_wrap_scenario():
                        [sc.chan(1)], msgs, deadline_ms=120000, cfg={"max_buffered": 1 << 20})
 
 
+def id_allocation_tier(ck, tier):
+    """PeerConnection level: DcIds.tla (stream-id allocation of create_data_channel; invariants UniqueLive,
+    NoSharedStream) generates every program of 4 application calls (negotiated channels in every id order, in-band
+    creates on either side, dropped handles, connect). Stage 1 replays ALL of them on unconnected PeerConnections
+    (UniqueLive after every call); stage 2 replays a seeded sample on a real connected pair (DcepParams,
+    DeliveredOnItsChannel)."""
+    sink = os.path.join(ck.dir, f"progs_{tier}_{os.getpid()}.ndjson")
+    res = vlib.tlc("MC_DcIds", "MC_DcIds.cfg", tags=("PROG",), sinks={"PROG": sink}, timeout=900, workers=1,
+                   tag=f"MC_DcIds_{tier}_{os.getpid()}")
+    vlib.tlc_ok(res, "DcIds model")
+    ck.add_tlc(res, "DcIds (ids 0..5, 4 calls): UniqueLive, NoSharedStream")
+    progs = {}
+    for r in vlib.read_ndjson(sink):
+        progs.setdefault(json.dumps(r["ops"], sort_keys=True), r)
+    progs = [progs[k] for k in sorted(progs)]
+    vlib.write_ndjson(sink, progs)
+    out1 = os.path.join(ck.dir, f"ids_{tier}_{os.getpid()}.ndjson")
+    p = vlib.run_bin("dcids", ["ids", sink, out1], timeout=900)
+    if p.returncode != 0:
+        raise vlib.ToolError(f"dcids ids failed: {p.stderr[-1500:]}")
+    rows = vlib.read_ndjson(out1)
+    # stage 2: programs with at least one in-band create, seeded sample
+    inb = [r for r in progs if any(o["op"] == "inband" for o in r["ops"])]
+    chosen = sc.sample(inb, 64 if tier == "quick" else 1500, vlib.seed() + 70)
+    sink2 = os.path.join(ck.dir, f"progs2_{tier}_{os.getpid()}.ndjson")
+    vlib.write_ndjson(sink2, chosen)
+    import subprocess
+    nproc = 8
+    procs = []
+    for i in range(nproc):
+        o = os.path.join(ck.dir, f"pairids_{tier}_{os.getpid()}_{i}.ndjson")
+        procs.append((subprocess.Popen([vlib.bin_path("dcids"), "pair", sink2, o, f"{i}/{nproc}"], cwd=vlib.ROOT,
+                                       stdout=subprocess.PIPE, stderr=subprocess.PIPE, text=True), o))
+    for pr, o in procs:
+        try:
+            _, err = pr.communicate(timeout=1200)
+        except subprocess.TimeoutExpired:
+            pr.kill()
+            raise vlib.ToolError("dcids pair timed out")
+        if pr.returncode != 0:
+            raise vlib.ToolError(f"dcids pair failed: {err[-1500:]}")
+        rows += vlib.read_ndjson(o)
+        os.remove(o)
+    nprog = sum(r.get("programs", 0) for r in rows if r.get("type") == "summary")
+    skipped = sum(1 for r in rows if r.get("type") == "skipped")
+    for r in rows:
+        if r.get("type") == "divergence":
+            sig = {"sub": "dcids", "rule": r["rule"], "stage": r["stage"],
+                   "inband_by_both_before_connect": bool(r.get("inband_by_both_before_connect", False))}
+            ck.divergence(sig, {"rule": r["rule"], "detail": {k: v for k, v in r.items() if k not in ("program", "type")},
+                                "program": r["program"]})
+    for f in (sink, sink2, out1):
+        try:
+            os.remove(f)
+        except OSError:
+            pass
+    ck.notes.append(f"id allocation tier: {len(progs)} programs replayed without network, {len(chosen)} on a connected pair "
+                    f"({skipped} skipped: not connectable)")
+    return nprog
+
+
 def run(tier):
     ck = vlib.Check(PID, tier)
-    vlib.build_harness(["sctp"])
+    vlib.build_harness(["sctp", "dcids"])
+    n_id_programs = id_allocation_tier(ck, tier)
     design_checks(ck, tier)
     singles, pairs, frag, gen_finished = generate(ck, tier)
     scen = build_scenarios(singles, pairs, frag, tier)
@@ -239,7 +301,7 @@ def run(tier):
         end = [e for e in by_id[s["id"]] if e["comp"] == "app" and e["ev"] == "end"][-1]
         if end["faults_applied"] > 0 or len(s["chans"]) > 1:
             applied.add(json.dumps([s["faults"], [c["sid"] for c in s["chans"]], len(s["msgs"])], sort_keys=True))
-    ck.cov["traces_validated_against_impl"] = len(scen)
+    ck.cov["traces_validated_against_impl"] = len(scen) + n_id_programs
     ck.cov["evaluations"] = nev
     ck.cov["distinct_nontrivial"] = len(applied)
     ck.cov["rule"] = ("one recorded run of the two real endpoints per scenario = TLC-generated fault schedule x workload "
